@@ -80,9 +80,13 @@ CALLS = [
     ('compile-parse', 'G5', (), 'z', ()),        # ... must be invisible to another grammar's constants
     ('compile-parse', 'G1', (('semantics', 'counting'),), 'a b', ()),   # a fresh object, equal to the ones used before
     ('model-parse', 'G1', 'a b', (('semantics', 'counting'),)),
+    # per-call settings of a parse that fails must not stay on the persistent generated parser object
+    ('generated', 'G1', 'x', (('whitespace', ''), ('nameguard', False))),
+    # model-building options other than asmodel= / semantics= (they, too, must keep the call out of the compile cache)
+    ('compile-parse', 'G1', (('basetype', 'node'),), 'a b', ()),
 ]
 SAME_AS = {20: 2}   # call index -> call index whose first observation it must equal
-REDUCED = [0, 1, 2, 5, 7, 12, 13, 16, 17, 19, 20, 21, 22, 23, 24]
+REDUCED = [0, 1, 2, 5, 7, 10, 12, 13, 16, 17, 19, 20, 21, 22, 23, 24, 25, 26]
 GRAMMARS = {'G1': G1, 'G2': G2, 'G3': G3, 'G4': G4, 'G5': G5}
 
 
@@ -121,6 +125,9 @@ def run_history(hist):
             d['semantics'] = Tag()
         if d.get('semantics') == 'counting':
             d['semantics'] = Counting()
+        if d.get('basetype') == 'node':
+            from tatsu.objectmodel import Node
+            d['basetype'] = Node
         return d
 
     for idx in hist:
@@ -228,7 +235,7 @@ def classify_history(hist, pos, got=None, first=None):
         return x[1]
     if got is not None and first is not None and got[0] == 'node' and first[0] == 'node' and got[1] == first[1] and got[2] != first[2] and got[3:] == first[3:]:
         # same class name, same content, other bases: an earlier grammar synthesised a class of that name
-        if any(grammar_of(e) != grammar_of(c) and opts_of(e).get('asmodel') for e in earlier):
+        if any(grammar_of(e) != grammar_of(c) and (opts_of(e).get('asmodel') or opts_of(e).get('basetype')) for e in earlier):
             return 'history/synthesized-class-registry-keyed-by-name-only'
 
     def brief(x):
